@@ -187,6 +187,20 @@ prop("C04", "exploration",
      assumptions=["set_loops and set_waveform replace their whole blob: the loops list / overview waveform is one field at the API level, so the "
                   "whole blob counts as owned by them (the statement's read-modify-write clause is anchored at the partial setters)"])
 
+prop("C13", "exploration",
+     quick=[("detect", "fast", 2500)],
+     thorough=[("detect", "fast", 150000)],
+     relevant=["detections"],
+     rule="between close and reload a second SQLite client rewrites the stored (major, minor, patch) triple - every supported triple, its +-1 "
+          "neighbours in each component, the whole box 0..4 x 0..22 x 0..4 and far-out values -, flips the 1.18.0 variant marker (declared type "
+          "of Track.isExternalTrack) and rearranges the files on the simulated disk (own layout, no database, both layouts, missing directory, "
+          "file moved to the other layout); load_database, version_name and database_exists are compared with the decision table of DESIGN "
+          "appendix B; the undamaged image is restored afterwards; non-trivial = at least one detection probe; distinct = new plan digest "
+          "reaching a new (triple, layout, source schema, marker) combination",
+     assumptions=["combinations the statement leaves open (a 2.x or 3.0.0 triple in the legacy layout, a 1.x or 3.0.0 triple in Database2) accept the mapped "
+                  "schema or any std::exception, never another supported schema",
+                  "this is a decision table hosted by the simulator: it contributes the disk states and the second writer, not scheduling power"])
+
 TIER_DEFAULT_SEED = {"quick": 1, "thorough": 20260929}
 
 
@@ -606,6 +620,7 @@ def write_evidence(pid, tier, seed, col, wall, violations, known_hits, samples, 
         "runs_truncated": col.truncated,
         "worker_restarts": col.worker_restarts,
         "other_property_hits": col.other,
+        "other_property_classes": col.other_keys,
         "known_findings_hit": known_hits,
         "components": {
             "real": ["libdjinterop (all of src/)", "sqlite_modern_cpp", "system SQLite 3.40.1 (parser, VM, pager, journal, locking)", "zlib"],
